@@ -272,7 +272,9 @@ package memefish
 // @   ensures[C13,C14] closed: !result1 ==> l.pos >= old(l.pos) + 2 * len(q) && l.Buffer[l.pos - len(q):l.pos] == q
 // @   panics when !noPanic
 // @   ensures[C03,C15] identne: !result1 && name == "identifier" && len(q) == 1 ==> len(result0) > 0
+// @   ensures[C05] shorter: !result1 ==> len(result0) <= l.pos - old(l.pos) - 2 * len(q)
 // @   modifies l.pos, l.File.lines
+// @   loop 0 invariant[C05] shorterl: len(content) <= i - len(q)
 // @   loop 0 invariant LexInv(l) && l.pos == old(l.pos) && len(q) <= i && l.pos + i <= len(l.Buffer) && (hasError ==> noPanic) && l.File.lines == old(l.File.lines)
 // @   loop 0 decreases len(l.Buffer) - l.pos - i
 // One scan step (C14 escape table; also what makes "a ';' or quote inside a literal never ends it" true, C12):
@@ -382,6 +384,7 @@ package memefish
 // @   ensures[C14] illegal: p < len(l.Buffer) && !single1(b0) && b0 != '<' && b0 != '>' && b0 != '+' && b0 != '-' && b0 != '=' && b0 != '|' && b0 != '!' && b0 != '@' && b0 != '.' && b0 != 96 && !isDigit(b0) && !isQ(b0) && !isIdentStart(b0) ==> l.Token.Kind == "<bad>" && l.pos == p + 1
 // @   panics when !noPanic
 // @   ensures[C03,C15] identne: l.Token.Kind == "<ident>" ==> len(l.Token.AsString) > 0
+// @   ensures[C05] identlen: l.Token.Kind == "<ident>" ==> len(l.Token.AsString) <= l.pos - old(l.pos)
 // @   modifies l.pos, l.Token.Kind, l.Token.AsString, l.Token.Base, l.dotIdent, l.File.lines
 // @   loop 0 invariant LexInv(l) && l.pos == old(l.pos) && 1 <= i && l.pos + i <= len(l.Buffer) && l.Token.Kind == old(l.Token.Kind) && l.dotIdent == old(l.dotIdent)
 // @   loop 0 invariant[C14] forall k: l.pos + 1 <= k && k < l.pos + i ==> isIdentPart(l.Buffer[k])
@@ -409,6 +412,7 @@ package memefish
 // @   ensures[C12,C14] punct1: punct1(l, old(l.pos))
 // @   panics when !noPanic
 // @   ensures[C03,C15] identne: l.Token.Kind == "<ident>" ==> len(l.Token.AsString) > 0
+// @   ensures[C05] identlen: l.Token.Kind == "<ident>" ==> len(l.Token.AsString) <= l.pos - old(l.pos)
 // @   modifies l.pos, l.Token.Kind, l.Token.AsString, l.Token.Base, l.dotIdent, l.File.lines
 // @   loop 0 invariant LexInv(l) && l.pos == old(l.pos) && 0 <= i && l.pos + i <= len(l.Buffer) && (i == 0 ==> l.pos < len(l.Buffer) && isIdentPart(l.Buffer[l.pos]))
 // @   loop 0 invariant[C14] forall k: l.pos <= k && k < l.pos + i ==> isIdentPart(l.Buffer[k])
@@ -451,6 +455,7 @@ package memefish
 // @   ensures l.Token.Kind != ""
 // @   panics when !noPanic
 // @   ensures[C03,C15] identne: l.Token.Kind == "<ident>" ==> len(l.Token.AsString) > 0
+// @   ensures[C05] identlen: l.Token.Kind == "<ident>" ==> len(l.Token.AsString) <= l.Token.End - l.Token.Pos
 // @   modifies l.pos, l.Token.*, l.lastTokenKind, l.dotIdent, l.File.lines
 // @   loop 0 invariant LexInv(l) && old(l.pos) <= l.pos && l.pos == triviaEnd(l, old(l.pos))
 // @   loop 0 invariant commentsOK(l, old(l.pos))
